@@ -332,94 +332,108 @@ func runC09(c *Ctx) {
 						break
 					}
 					nrImp := impOf(nr)
-					switch cond {
-					case u.bdd.And(u.bdd.Not(noRewrite), u.bdd.And(empty, u.bdd.Not(excImp))):
-						// P is evaluated under this case condition
-						got := u.bdd.Restrict(P, cond)
-						if got != u.bdd.Not(nrImp) {
-							bad = "a non-important empty exception must delete exactly the non-important rewrites; predicate is " + clip(u.ShowBool(got), 120)
+					// one deletion may serve both documented cases (predicate selected by the emptiness
+					// test): each polarity of the test is judged on its own
+					cond0, P0 := cond, P
+					for _, pol := range []bool{true, false} {
+						lit := empty
+						if !pol {
+							lit = u.bdd.Not(empty)
 						}
-					case u.bdd.And(u.bdd.Not(noRewrite), u.bdd.Not(empty)):
-						nTables++
-						H := P
-						roles := map[string]*E{}
-						unknown := ""
-						for _, at := range u.AtomsOf(H) {
-							c.Atoms[at.key] = true
-							switch {
-							case u.Atom(at) == excImp:
-								roles["excImp"] = at
-							case u.Atom(at) == nrImp:
-								roles["nrImp"] = at
-							case u.Atom(at) == empty:
-								roles["excCnameEmpty"] = at
-							case at.Op == "eq" && at.Args[0].Op == "len" && at.Args[0].Args[0].key == dfield(exc, "NewCNAME") && isIntConst(at.Args[1], 0):
-								roles["excCnameEmpty"] = at
-							case at.Op == "eq" && pairIs(at, dfield(exc, "NewCNAME"), dfield(nr, "NewCNAME")):
-								roles["sameCname"] = at
-							case at.Op == "eq" && pairIs(at, dfield(exc, "RCode"), dfield(nr, "RCode")):
-								roles["sameRcode"] = at
-							case at.Op == "eq" && at.Args[0].key == dfield(exc, "RCode") && isIntConst(at.Args[1], 0):
-								roles["excSuccess"] = at
-							case at.Op == "eq" && pairIs(at, dfield(exc, "RRType"), dfield(nr, "RRType")):
-								roles["sameType"] = at
-							case (at.Op == "call" || at.Op == "eq") && len(at.Args) >= 2 && pairIs(at, dfield(exc, "Value"), dfield(nr, "Value")):
-								roles["sameValue"] = at
-							case u.Atom(at) == noRewrite:
-								roles["noRewrite"] = at
-							default:
-								unknown = u.Show(at)
+						cond := u.bdd.And(cond0, lit)
+						if cond == False || bad != "" {
+							continue
+						}
+						P := u.bdd.Restrict(u.bdd.Cofactor(P0, u.atomIx[ea.key], pol), cond)
+						switch cond {
+						case u.bdd.And(u.bdd.Not(noRewrite), u.bdd.And(empty, u.bdd.Not(excImp))):
+							// P is evaluated under this case condition
+							got := u.bdd.Restrict(P, cond)
+							if got != u.bdd.Not(nrImp) {
+								bad = "a non-important empty exception must delete exactly the non-important rewrites; predicate is " + clip(u.ShowBool(got), 120)
 							}
-						}
-						if unknown != "" {
-							bad = "UNDECIDED: the matcher reads a predicate outside the documented criteria: " + clip(unknown, 160)
-							break
-						}
-						names := []string{"excImp", "nrImp", "excCnameEmpty", "sameCname", "sameRcode", "excSuccess", "sameType", "sameValue"}
-						for _, n := range names {
-							if roles[n] == nil && n != "excImp" && n != "excCnameEmpty" {
-								bad = "a documented criterion is never read: " + n
-							}
-						}
-						n := 0
-						for m := 0; m < 1<<len(names) && bad == ""; m++ {
-							val := map[string]bool{}
-							asgKey := map[string]bool{}
-							for i, nm := range names {
-								val[nm] = m&(1<<i) != 0
-								if roles[nm] != nil {
-									asgKey[roles[nm].key] = val[nm]
+						case u.bdd.And(u.bdd.Not(noRewrite), u.bdd.Not(empty)):
+							nTables++
+							H := P
+							roles := map[string]*E{}
+							unknown := ""
+							for _, at := range u.AtomsOf(H) {
+								c.Atoms[at.key] = true
+								switch {
+								case u.Atom(at) == excImp:
+									roles["excImp"] = at
+								case u.Atom(at) == nrImp:
+									roles["nrImp"] = at
+								case u.Atom(at) == empty:
+									roles["excCnameEmpty"] = at
+								case at.Op == "eq" && at.Args[0].Op == "len" && at.Args[0].Args[0].key == dfield(exc, "NewCNAME") && isIntConst(at.Args[1], 0):
+									roles["excCnameEmpty"] = at
+								case at.Op == "eq" && pairIs(at, dfield(exc, "NewCNAME"), dfield(nr, "NewCNAME")):
+									roles["sameCname"] = at
+								case at.Op == "eq" && pairIs(at, dfield(exc, "RCode"), dfield(nr, "RCode")):
+									roles["sameRcode"] = at
+								case at.Op == "eq" && at.Args[0].key == dfield(exc, "RCode") && isIntConst(at.Args[1], 0):
+									roles["excSuccess"] = at
+								case at.Op == "eq" && pairIs(at, dfield(exc, "RRType"), dfield(nr, "RRType")):
+									roles["sameType"] = at
+								case (at.Op == "call" || at.Op == "eq") && len(at.Args) >= 2 && pairIs(at, dfield(exc, "Value"), dfield(nr, "Value")):
+									roles["sameValue"] = at
+								case u.Atom(at) == noRewrite:
+									roles["noRewrite"] = at
+								default:
+									unknown = u.Show(at)
 								}
 							}
-							if roles["noRewrite"] != nil {
-								asgKey[roles["noRewrite"].key] = false
+							if unknown != "" {
+								bad = "UNDECIDED: the matcher reads a predicate outside the documented criteria: " + clip(unknown, 160)
+								break
 							}
-							// this case: the exception has a value.  "Empty value" is the emptiness of
-							// the new CNAME together with a zero response code etc.; within this case
-							// the table is the documented one for every valuation of the criteria.
-							if ea.Op == "eq" && roles["excCnameEmpty"] == ea && val["excCnameEmpty"] {
-								// the case condition (value not empty) excludes this valuation only when
-								// emptiness is the CNAME test itself
-								continue
+							names := []string{"excImp", "nrImp", "excCnameEmpty", "sameCname", "sameRcode", "excSuccess", "sameType", "sameValue"}
+							for _, n := range names {
+								if roles[n] == nil && n != "excImp" && n != "excCnameEmpty" {
+									bad = "a documented criterion is never read: " + n
+								}
 							}
-							got := u.bdd.Eval(H, func(v int) bool { return asgKey[u.atoms[v].key] })
-							n++
-							var want bool
-							switch {
-							case !val["excImp"] && val["nrImp"]:
-								want = false
-							case !val["excCnameEmpty"]:
-								want = val["sameCname"]
-							default:
-								want = val["sameRcode"] && (!val["excSuccess"] || (val["sameType"] && val["sameValue"]))
+							n := 0
+							for m := 0; m < 1<<len(names) && bad == ""; m++ {
+								val := map[string]bool{}
+								asgKey := map[string]bool{}
+								for i, nm := range names {
+									val[nm] = m&(1<<i) != 0
+									if roles[nm] != nil {
+										asgKey[roles[nm].key] = val[nm]
+									}
+								}
+								if roles["noRewrite"] != nil {
+									asgKey[roles["noRewrite"].key] = false
+								}
+								// this case: the exception has a value.  "Empty value" is the emptiness of
+								// the new CNAME together with a zero response code etc.; within this case
+								// the table is the documented one for every valuation of the criteria.
+								if ea.Op == "eq" && roles["excCnameEmpty"] == ea && val["excCnameEmpty"] {
+									// the case condition (value not empty) excludes this valuation only when
+									// emptiness is the CNAME test itself
+									continue
+								}
+								got := u.bdd.Eval(H, func(v int) bool { return asgKey[u.atoms[v].key] })
+								n++
+								var want bool
+								switch {
+								case !val["excImp"] && val["nrImp"]:
+									want = false
+								case !val["excCnameEmpty"]:
+									want = val["sameCname"]
+								default:
+									want = val["sameRcode"] && (!val["excSuccess"] || (val["sameType"] && val["sameValue"]))
+								}
+								if got != want {
+									bad = fmt.Sprintf("for %v the matcher says disabled=%v, the statement says %v", val, got, want)
+								}
 							}
-							if got != want {
-								bad = fmt.Sprintf("for %v the matcher says disabled=%v, the statement says %v", val, got, want)
-							}
+							c.Paths += n
+						default:
+							bad = "DeleteFunc applied under an undocumented condition " + clip(u.ShowBool(cond), 160)
 						}
-						c.Paths += n
-					default:
-						bad = "DeleteFunc applied under an undocumented condition " + clip(u.ShowBool(cond), 160)
 					}
 				default:
 					bad = "UNDECIDED: unrecognised result " + clip(u.Show(leaf), 120)
